@@ -237,11 +237,11 @@ fn tui_loads(ctx: &Ctx, texts: &[String], tag: &str, rep: &mut Report) -> Option
 }
 
 pub fn run(ctx: &Ctx) -> Report {
-    let n = ctx.size(300_000, 6_000_000) as usize;
-    let cli_n = ctx.size(120, 3_000) as usize;
+    let n = ctx.size(800_000, 6_000_000) as usize;
+    let cli_n = ctx.size(300, 3_000) as usize;
     let batches = (n + 199) / 200;
     let cli_every = (n / cli_n.max(1)).max(1);
-    let tui_every = (batches / (ctx.size(30, 600) as usize).max(1)).max(1);
+    let tui_every = (batches / (ctx.size(60, 600) as usize).max(1)).max(1);
     par_items(ctx.threads, batches, ctx.seed, move |i, seed, rep| {
         let mut rng = Rng::new(seed);
         let mut used = Used::new();
